@@ -49,8 +49,8 @@ pub fn check_merge(parts: &[Part], r: &CharPartition, what: &str, o: &mut Outcom
     for p in parts {
         all.extend(p);
     }
-    if all.len() > 30 {
-        // universe limited to 64 segments
+    if all.len() > 60 {
+        // universe limited to 128 segments
         return;
     }
     let u = Universe::from_intervals(&all);
@@ -58,7 +58,7 @@ pub fn check_merge(parts: &[Part], r: &CharPartition, what: &str, o: &mut Outcom
     let label = |seg: usize| -> Vec<Option<usize>> { parts.iter().map(|p| class_of(p, u.segs[seg].0)).collect() };
     let all_comp = |l: &Vec<Option<usize>>| l.iter().all(|x| x.is_none());
     // (1) within a class of r labels are constant; intervals of r carry no all-complement label
-    let mut covered = 0u64;
+    let mut covered = 0u128;
     for &(a, b) in &riv {
         let m = u.mask(a, b);
         covered |= m;
@@ -136,6 +136,13 @@ pub fn check_list(parts: &[Part], o: &mut Outcome) {
     if !same(&r2, &r) {
         o.fail("C12/order-dependent", format!("merge_partition_list of {:?} depends on the order", parts.iter().map(|p| show_part(p)).collect::<Vec<_>>()));
     }
+    if built.len() >= 4 {
+        let mut rot: Vec<&CharPartition> = built.iter().collect();
+        rot.rotate_left(built.len() / 2);
+        if !same(&merge_partition_list(rot.into_iter()), &r) {
+            o.fail("C12/order-dependent", format!("merge_partition_list of {} partitions depends on the order (rotation by half)", built.len()));
+        }
+    }
     if built.len() >= 2 {
         let mut rot: Vec<&CharPartition> = built.iter().collect();
         rot.rotate_left(1);
@@ -207,6 +214,33 @@ pub fn run(tape: &[u8], cx: &Cx) -> Outcome {
         let base = parts[t.choose(parts.len())].clone();
         parts.push(gen_related(&mut t, &base));
     }
+    // long lists (list-folding strategies such as pairwise reduction only differ on longer lists):
+    // many small partitions, possibly empty ones, each contributing its own boundaries
+    if t.bool_p(45) {
+        parts.truncate(1 + t.choose(2));
+        parts[0].truncate(2);
+        let n = 4 + t.choose(18);
+        let mut pos: u32 = t.u32_in(0, 50);
+        for _ in 0..n {
+            if t.bool_p(30) {
+                parts.push(vec![]);
+                continue;
+            }
+            let w = t.u32_in(0, 6);
+            let a = pos;
+            let b = a + w;
+            // mostly fresh territory, sometimes overlapping the previous one
+            parts.push(vec![(a, b)]);
+            pos = if t.bool_p(60) { a + w / 2 } else { b + 1 + t.u32_in(0, 3) };
+        }
+        // shuffle
+        for i in (1..parts.len()).rev() {
+            let j = t.choose(i + 1);
+            parts.swap(i, j);
+        }
+    }
+    let p1 = parts[0].clone();
+    let p2 = parts.get(1).cloned().unwrap_or_default();
     let mut o = Outcome::default();
     o.digest = fnv(format!("{:?}", parts).as_bytes());
     if cx.render {
@@ -219,6 +253,9 @@ pub fn run(tape: &[u8], cx: &Cx) -> Outcome {
     o.nontrivial = interesting(&p1, &p2);
     if parts.len() > 2 {
         o.tag("list>=3");
+    }
+    if parts.len() >= 7 {
+        o.tag("list>=7");
     }
     if o.nontrivial {
         o.tag("nested/interleaved/adjacent");
